@@ -392,6 +392,46 @@ pub fn gen_c04(tier: Tier, seed: u64, em: &mut Emitter, cfg: i64) {
     crate::sm::gen_test_util(em);
 }
 
+/// Cross-target records (run under Miri for a 32-bit and a big-endian target): a small set, since
+/// interpretation is slow.  Conversions with fixed-width sources on values around the
+/// pointer-width boundaries; `usize`/`isize` are left out (the model fixes them at 64 bits).
+pub fn gen_cross(em: &mut Emitter, cfg: i64) {
+    for (kind, s, d) in crate::probe::table() {
+        let (sn, dn) = (crate::probe::TYPES[s], crate::probe::TYPES[d]);
+        if sn.ends_with("size") || dn.ends_with("size") {
+            continue;
+        }
+        let b = prim_bounds(sn);
+        let mut vals: Vec<Sm> = vec![(false, 0), (false, 1), (false, 15), (false, 16), (false, 127), (false, 128),
+            (false, 16383), (false, 16384), (false, 65535), (false, 65536), (true, 1), (true, 128),
+            (false, 1 << 31), (false, (1 << 31) + 5), (false, 1 << 32), (false, (1 << 32) + 5), (false, (1 << 32) + 127),
+            (false, (1 << 32) + 16383), (true, (1 << 32) - 3), (true, 1 << 32), (false, 1 << 63), (false, (1 << 64) + 3),
+            (false, (1u128 << 96) + 7), b.0, b.1];
+        vals.dedup();
+        for x in vals {
+            if in_bounds(x, b) {
+                let mut inp = vec![cfg, kind, s as i64, d as i64];
+                inp.extend_from_slice(&enc_sm(x));
+                em.emit_k("cross/conversions", 50, inp);
+            }
+        }
+    }
+    for (t, (_, repr, max)) in NEWTYPES.iter().enumerate() {
+        let top = if *repr == "u8" { 255 } else { 65535 };
+        for v in [0i64, 1, *max - 1, *max, *max + 1, top - 1, top] {
+            em.emit_k("cross/new", 41, vec![cfg, t as i64, v]);
+        }
+        for v in [0i64, 1, 9, 10, *max] {
+            em.emit_k("cross/display", 51, vec![t as i64, v]);
+        }
+        for s in ["0", "15", "127", "128", "16383", "16384", "+7", "007", "4294967296", "4294967301", "18446744073709551621", "-1", ""] {
+            let mut inp = vec![t as i64];
+            inp.extend(s.bytes().map(|c| c as i64));
+            em.emit_k("cross/parse", 42, inp);
+        }
+    }
+}
+
 pub fn gen_c05(tier: Tier, seed: u64, em: &mut Emitter, cfg: i64) {
     let mut r = Rng::new(seed ^ 0xC05);
     gen_convs(50, cfg, tier, &mut r, em);
